@@ -13,6 +13,13 @@ Vocabulary (all defined in the model / proof files, restated here in words):
   Heights none ops   the block heights of the history strictly increase
   Kept H s t hi      every node of `t` is in `s`: active, or inactive since a height > `hi`
   swalk              `GetState`: walk from a root hash through the store (the driver's read)
+  blockL / Act / loadNode   a block on a partly loaded trie: events interleaved with re-loads of nodes
+                     from the store, each refreshing the cached stored count of its refcount-map entry
+  tryRunGC           blockchain.go tryRunGC = its Go→Lean translation Generated.GoFuncs.tryRunGC
+                     (`tryRunGCSpec`: the hand-written reading, proved equal)
+  Lay, Rep l s       MemCachedStore over the persistent store; `s` shows what the layers `l` show
+  Chain, ChainEv, runChain   the node: blocks, Run's persist() / tryRunGC(oldPersisted), restarts
+  traceable i h mtb  dao.go:829  i ≤ h ∧ h < i + mtb
 -/
 import NeoModel.Model.MptRc
 import NeoModel.Proofs.MptRcOcc
@@ -20,6 +27,12 @@ import NeoModel.Proofs.MptRcBatch
 import NeoModel.Proofs.MptRcFlush
 import NeoModel.Proofs.MptRcExact
 import NeoModel.Proofs.MptRcRun
+import NeoModel.Proofs.MptRcLazy
+import NeoModel.Proofs.MptRcRefine
+import NeoModel.Proofs.MptRcGcIndex
+import NeoModel.Proofs.MptRcGoTie
+import NeoModel.Proofs.MptRcLayered
+import NeoModel.Proofs.MptRcChain
 import NeoModel.Proofs.MptRcRead
 import NeoModel.Proofs.MptRcRestore
 import NeoModel.Proofs.MptRcPerm
@@ -303,5 +316,251 @@ theorem uncommitted_block_breaks_exactness :
     (withDrop.map fun s => (occH toyH s.root (hash toyH (.leaf [0xcc])),
         (sget s.store (hash toyH (.leaf [0xcc]))).isSome)) = some (1, false) := by
   decide
+
+/-! ## 6. the node's own choice of the collection index (blockchain.go tryRunGC) -/
+
+/-- C11.6a: whenever `tryRunGC` decides to collect, the index `g` it hands to `stateroot.Module.GC`
+satisfies `g + MaxTraceableBlocks ≤ persisted height` — for every configuration
+(GarbageCollectionPeriod, with or without the P2P state-exchange extensions and whatever the uint32
+arithmetic of that branch wraps to), every MaxTraceableBlocks, every old and new persisted height. -/
+theorem gc_index_bound (c : GcCfg) (mtb oldH newH g : Nat) (h : tryRunGC c mtb oldH newH = some g) :
+    g + mtb ≤ newH :=
+  tryRunGC_bound c mtb oldH newH g h
+
+/-- C11.6b what the index is, exactly (no P2P extensions, heights fit 32 bits): persisted height −
+MaxTraceableBlocks rounded down to the period; the collection runs iff that is above one period and
+the persisted height has entered a new period since the previous tick. -/
+theorem gc_index_exact (c : GcCfg) (hp : c.p2p = false) (mtb oldH newH : Nat) (h32 : newH < 4294967296) :
+    tryRunGC c mtb oldH newH =
+      if c.gcp < (newH - mtb) / c.gcp * c.gcp ∧ newH / c.gcp ≠ oldH / c.gcp
+      then some ((newH - mtb) / c.gcp * c.gcp) else none :=
+  tryRunGC_plain c hp mtb oldH newH h32
+
+/-- C11.6b' the function the model runs, `tryRunGC`, IS the Go→Lean translation of blockchain.go
+`tryRunGC` (Generated.GoFuncs.tryRunGC, regenerated from /repo's source on every check run): it equals
+the hand-written reading `tryRunGCSpec` (Model/MptRc/GcIndex.lean, line by line) for all arguments.
+A change of the Go function changes the generated definition and this proof stops checking. -/
+theorem gc_index_is_translated_code (c : GcCfg) (mtb oldH newH : Nat) :
+    (match Generated.GoFuncs.tryRunGC (oldH : Int) (newH : Int) (mtb : Int) c.p2p (c.ssi : Int) (c.gcp : Int) 0 with
+      | some (t :: _) => some t.toNat
+      | _ => none) = tryRunGCSpec c mtb oldH newH :=
+  tryRunGC_eq_spec c mtb oldH newH
+
+/-- C11.6b'' composed with the coordinator's `GoFuncsTie.tryRunGC_within_window` (proved directly on
+the translated code): with a positive period and a persisted height that fits 32 bits the index is
+above one period, a multiple of the period, and MaxTraceableBlocks below the persisted height. -/
+theorem gc_index_window (c : GcCfg) (hg : 0 < c.gcp) (mtb oldH newH g : Nat) (h32 : newH < 2 ^ 32)
+    (h : tryRunGC c mtb oldH newH = some g) : c.gcp < g ∧ g + mtb ≤ newH ∧ g % c.gcp = 0 :=
+  tryRunGC_window c hg mtb oldH newH g h32 h
+
+/-- C11.6b‴ MaxTraceableBlocks only goes down: what the TRANSLATED `Policy.setMaxTraceableBlocks`
+(native/policy.go:816-837) stores, if anything, is the node model's `newMtbOf old (some v)` = `v`
+with `0 < v ≤ old`; a rejected request stores nothing (the model's `newMtb = none`). So the `mtb`
+of `node_gc_index_below_window` / `node_traceable_roots_readable` moves as the code moves it. -/
+theorem policy_lowers_mtb_only (v old vub : Nat) (committee : Bool) (id : Int) (l : List Int)
+    (h : Generated.GoFuncs.policySetMaxTraceableBlocks (v : Int) (old : Int) (vub : Int) committee id = some l) :
+    l = [id, ((newMtbOf old (some v) : Nat) : Int)] ∧ newMtbOf old (some v) = v ∧ 0 < v ∧ v ≤ old :=
+  policy_setter_is_newMtbOf v old vub committee id l h
+
+example : Generated.GoFuncs.policySetMaxTraceableBlocks 3 5 1 true (-7) = some [-7, 3] ∧
+    Generated.GoFuncs.policySetMaxTraceableBlocks 6 5 1 true (-7) = none ∧ newMtbOf 5 (some 6) = 5 := by decide
+
+-- non-vacuity: persisted height 9, MaxTraceableBlocks 3, period 2: collect at 6; with the state-sync
+-- point at 4 the target drops to 1, rounds to 0, no collection; nothing happens within one period
+example : tryRunGC { gcp := 2 } 3 4 9 = some 6 := by decide
+example : tryRunGC { gcp := 2, p2p := true, ssi := 4 } 3 4 9 = none := by decide
+example : tryRunGC { gcp := 2, p2p := true, ssi := 4 } 1 4 15 = some 6 := by decide
+example : tryRunGC { gcp := 4 } 3 8 9 = none := by decide
+
+/-- C11.6c the node as a whole — blocks arriving at any time (trie partly loaded, MaxTraceableBlocks
+lowered by committee transactions), the persist timer of `Run` as its two steps `persist()` and
+`tryRunGC(oldPersisted)` with anything in between, persists from elsewhere, restarts; node store =
+MemCachedStore over the persistent store, collections on the persistent store only. For EVERY such
+event sequence and configuration: `Flush` never panics; the run is exactly the run of the
+single-store model on the compiled history (so every theorem above applies to it); every index the
+node ever collected with is at most persisted height − MaxTraceableBlocks (current value), and the
+persisted height is below the number of blocks. -/
+theorem node_gc_index_below_window (H : Bytes → Bytes) (cfg : GcCfg) (mtb : Nat) (evs : List ChainEv) :
+    ∃ c s, runChain H { cfg := cfg, mtb := mtb } evs = some c ∧
+      runOps H { mode := .gc } (compileRun H { cfg := cfg, mtb := mtb } evs) = some s ∧
+      Rep c.lay s.store ∧ s.root = c.root ∧ s.hist = c.hist ∧
+      (∀ g ∈ c.gcs, g + c.mtb ≤ c.persisted) ∧ c.persisted ≤ c.next - 1 ∧
+      (s.gcAt = 0 ∨ s.gcAt + c.mtb ≤ c.persisted) := by
+  obtain ⟨c, s, top, pn, hc, hr, hs⟩ := sim_run H evs _ _ none 0 (sim_init H cfg mtb)
+  refine ⟨c, s, hc, hr, hs.rep, hs.root, hs.hist, hs.gcs, ?_, hs.gcAt⟩
+  have := hs.pers; have := hs.pn_le; omega
+
+/-- C11.6d traceable heights are never collected: after ANY run of the node (as in 6c), for every
+height `hi` that is traceable at the current height (dao.go:829: `hi ≤ height ∧ hi +
+MaxTraceableBlocks > height`), reading the state root of `hi` through the node's layered store
+returns exactly the contents of that height's trie: every present key is found with its value (given
+enough fuel), nothing else is ever returned. `H`: 32-byte output, no collision among the stored
+byte strings and that trie's node encodings. -/
+theorem node_traceable_roots_readable (H : Bytes → Bytes) (h32 : ∀ b, (H b).length = 32)
+    (cfg : GcCfg) (mtb : Nat) (evs : List ChainEv) (c : Chain)
+    (hc : runChain H { cfg := cfg, mtb := mtb } evs = some c)
+    (e : Nat × Node) (he : e ∈ c.hist) (htr : traceable e.1 (c.next - 1) c.mtb = true)
+    (hne : e.2.isEmpty = false) (hb : Bounded e.2)
+    (hcf : CollFree H (storeBytes c.lay.view ++ nodeEncs H e.2)) (p : Path) (v : Val) :
+    (lookup e.2 p = some v → ∃ n, ∀ fuel, n ≤ fuel → lwalk c.lay fuel (hash H e.2) p = .found v) ∧
+    (∀ fuel, lwalk c.lay fuel (hash H e.2) p = .found v → lookup e.2 p = some v) := by
+  obtain ⟨c', s, top, pn, hc', _, hs⟩ := sim_run H evs _ _ none 0 (sim_init H cfg mtb)
+  rw [hc] at hc'; cases hc'
+  simp only [traceable, Bool.and_eq_true, decide_eq_true_eq] at htr
+  have hge : s.gcAt ≤ e.1 := by
+    have := hs.pers; have := hs.pn_le
+    rcases hs.gcAt with h | h <;> omega
+  have hcf' : CollFree H (storeBytes s.store ++ nodeEncs H e.2) :=
+    collFree_subset hcf (fun x hx => by
+      rcases List.mem_append.mp hx with h | h
+      · exact List.mem_append_left _ (storeBytes_sub_of_rep hs.rep hs.inv.nd x h)
+      · exact List.mem_append_right _ h)
+  have := inv_read h32 hs.inv e (by rw [hs.hist]; exact he) hge hne hb hcf' p v
+  simpa only [lwalk_eq hs.rep] using this
+
+/-- C11.6e the layering claim on its own: the collection works on the persistent store
+(blockchain.go:1422 `GC(tgt, bc.store)`) while reads go through the MemCachedStore on top. If no
+record waiting in the upper layer is an inactive one with height ≤ g, every read through the layers
+after the collection is the read of the merged store collected at g. (The node guarantees the
+condition: what waits in the upper layer was written by blocks above the persisted height, and
+g ≤ persisted height − MaxTraceableBlocks — used in 6c/6d; `gcLow_needs_condition` shows it is needed.) -/
+theorem gc_on_lower_layer_is_gc_on_merged (l : Lay) (hn : StoreND l.low) (g : Nat) (hup : UpAbove g l) (k : Bytes) :
+    (l.gcLow g).get k = sget (gc g l.view) k :=
+  rep_gcLow (rep_view l) hn (nd_view l hn) g hup k
+
+-- non-vacuity: a node with period 1 and MaxTraceableBlocks 3, lowered to 2 by block 3; two timer
+-- ticks with blocks arriving between `persist()` and `tryRunGC`; the second tick collects at
+-- 4 − 2 = 2 while block 5 still waits in the upper layer; a node is re-loaded during block 2
+def nodeEvs : List ChainEv :=
+  [.addBlock [.put [1,2] [0xaa], .put [3,4] [0xbb]] [] none, .addBlock [.del [1,2]] [] none,
+   .persist true, .runGC,
+   .addBlock [.put [1,2] [0xcc]] [[hash toyH (.leaf [0xbb])]] none, .addBlock [] [] (some 2), .addBlock [] [] none,
+   .persist true, .addBlock [.put [5,6] [0xdd]] [] none, .runGC]
+
+set_option maxRecDepth 100000 in
+example : ((runChain toyH { cfg := { gcp := 1 }, mtb := 3 } nodeEvs).map fun c =>
+    (c.gcs, c.persisted, c.next, c.mtb, c.lay.up.length, c.lay.low.length)) = some ([2], 4, 6, 2, 4, 5) := by decide
+
+-- … heights 5 and 4 are traceable and read `34 ↦ bb`; heights 1 and 0 are below the index and fail cleanly
+set_option maxRecDepth 100000 in
+example : ((runChain toyH { cfg := { gcp := 1 }, mtb := 3 } nodeEvs).map fun c =>
+    c.hist.map fun e => (e.1, traceable e.1 (c.next - 1) c.mtb, lwalk c.lay 10 (hash toyH e.2) [3,4])) =
+    some [(5, true, .found [0xbb]), (4, true, .found [0xbb]), (3, false, .found [0xbb]), (2, false, .found [0xbb]),
+          (1, false, .notFound), (0, false, .notFound)] := by decide
+
+example : ∃ c s, runChain toyH { cfg := { gcp := 1 }, mtb := 3 } nodeEvs = some c ∧
+    runOps toyH { mode := .gc } (compileRun toyH { cfg := { gcp := 1 }, mtb := 3 } nodeEvs) = some s ∧
+    Rep c.lay s.store ∧ s.root = c.root ∧ s.hist = c.hist ∧
+    (∀ g ∈ c.gcs, g + c.mtb ≤ c.persisted) ∧ c.persisted ≤ c.next - 1 ∧
+    (s.gcAt = 0 ∨ s.gcAt + c.mtb ≤ c.persisted) :=
+  node_gc_index_below_window toyH _ _ nodeEvs
+
+-- the layering condition holds in a concrete layered store and the two reads agree; without it they differ
+example : (({ up := [([7], some (.rc [1] false 5))], low := [([8], .rc [2] false 1)] } : Lay).gcLow 3).get [8] = none := by decide
+example : let l : Lay := { up := [([7], some (.rc [1] false 1))], low := [] }
+    (l.gcLow 1).get [7] = some (.rc [1] false 1) ∧ sget (gc 1 l.view) [7] = none := gcLow_needs_condition
+
+/-! ## 7. lazy loading: nodes re-resolved from the store during a block
+
+All history theorems above (`latest_exact`, `gc_mode_exact`, `retained_nodes_present`, `gc_safe`,
+`stale_root_fails_clean`, section 6) quantify over histories that contain `blockL` — blocks on a
+partly loaded trie with any loads interleaved — and `reset` (Collapse / restart) anywhere. The
+theorem below is the reason, stated on its own. -/
+
+/-- C11.7: a block on a partly loaded trie. Start between two blocks with the store exact for `t`
+and the refcount map clean (`MapGood`). Run the block's events with ANY loads interleaved (each load
+of a hash that has a map entry overwrites the entry's cached stored count and bytes with what the
+store holds, trie.go:534-542). Then for every hash `k`: the delta in the map is the net of the
+block's events on `k` — so stored count + delta = number of occurrences of `k` in the new trie —, and
+the cached count of the entry, if set, is the stored count. -/
+theorem lazy_delta_exact (H : Bytes → Bytes) (mode : Mode) (hrc : mode.rc = true) (s : Store) (t : Node)
+    (hx : Exact H mode s t) (m : RcMap) (hg : MapGood H m s) (ops : List SubOp) (ld : List (List Bytes)) (k : Bytes) :
+    let m1 := applyActs H mode (sget s) m (interleave (blockEvs t ops) ld)
+    (activeCnt s k : Int) + dlt m1 k = occH H (trieAfter t ops) k ∧
+    (∀ e, mget m1 k = some e → e.initial ≠ 0 → e.initial = activeCnt s k) := by
+  obtain ⟨hmid, hdl⟩ := applyActs_spec hrc hx (interleave (blockEvs t ops) ld) m (midGood_of_good hg)
+  have hz : dlt m k = 0 := by
+    simp only [dlt]
+    cases hm : mget m k with
+    | none => rfl
+    | some e0 => exact hg.zero k e0 hm
+  refine ⟨?_, fun e he hne => (hmid.cache k e he hne).symm⟩
+  have h1 := hdl k
+  rw [hz, evsOf_interleave] at h1
+  have h2 := occ_block (hP H k) ops t
+  have h3 := hx.count k
+  simp only [occH] at h3 ⊢
+  rw [h1, h3, h2]; omega
+
+/-- C11.7b consequently the block's `Flush` does not panic and leaves the store exact for the new
+trie and the map clean — whatever was re-loaded. -/
+theorem lazy_block_exact (H : Bytes → Bytes) (mode : Mode) (hrc : mode.rc = true) (top : Option Nat) (s : St)
+    (hinv : Inv H mode top s) (idx : Nat) (hh : ∀ h, top = some h → h < idx) (ops : List SubOp) (ld : List (List Bytes)) :
+    ∃ s', commitL H s idx ops ld = some s' ∧ Inv H mode (some idx) s' ∧ s'.root = trieAfter s.root ops := by
+  obtain ⟨s', hc, hinv', hr, _⟩ := commitL_inv H mode hrc top s idx ops ld hinv hh
+  exact ⟨s', hc, hinv', hr⟩
+
+-- non-vacuity: ModeLatest, restart, then a block that re-loads the shared leaf `aa` after its
+-- first removal (an entry exists, the cached count is refreshed to the stored 2) — still exact
+def lazyOps : List Op :=
+  [.block 0 [.put [1,2] [0xaa], .put [3,4] [0xaa], .put [5,6] [0xbb]], .reset,
+   .blockL 1 [.del [1,2], .del [3,4]] [[], [hash toyH (.leaf [0xaa])], [], [], [hash toyH (.leaf [0xaa])]],
+   .blockL 2 [.put [1,2] [0xaa]] [[hash toyH (.leaf [0xbb])]]]
+
+example : ∃ s, runOps toyH { mode := .latest } lazyOps = some s ∧
+    ∀ h, match sget s.store h with
+      | none => occH toyH s.root h = 0
+      | some c => ∃ b, c = .rc b true (occH toyH s.root h) ∧ 0 < occH toyH s.root h ∧ toyH b = h :=
+  latest_exact toyH lazyOps (by simp [lazyOps, Heights])
+
+set_option maxRecDepth 100000 in
+example : ((runOps toyH { mode := .latest } (lazyOps.take 3)).map fun s =>
+    (sget s.store (hash toyH (.leaf [0xaa])), activeCnt s.store (hash toyH (.leaf [0xbb])))) = some (none, 1) := by decide
+
+-- the load really refreshes the cached count: after the first removal of `aa` its entry is (0, -1);
+-- the load sets the cached count to the stored 2
+set_option maxRecDepth 100000 in
+example : (mget (applyActs toyH .latest
+      (sget [(hash toyH (.leaf [0xaa]), .rc (enc toyH (.leaf [0xaa])) true 2)]) []
+      [.ev (false, .leaf [0xaa]), .load (hash toyH (.leaf [0xaa]))]) (hash toyH (.leaf [0xaa]))).map
+        (fun e => (e.initial, e.delta)) = some (2, -1) := by decide
+
+/-- C11.7c refinement lazy → expanded: run ANY history (blocks on a partly loaded trie with any loads
+interleaved, collections, restarts / Collapse anywhere) and the same history with every load forgotten
+(the fully expanded trie of the C10 model). Both succeed, go through the same tries, and leave under
+every hash a record with the same active flag and the same count / deactivation height (the bytes
+hash to the key in both: `latest_exact` / `gc_mode_exact`). -/
+theorem lazy_refines_expanded (H : Bytes → Bytes) (mode : Mode) (hrc : mode.rc = true) (ops : List Op)
+    (hh : Heights none ops) :
+    ∃ s s2, runOps H { mode := mode } ops = some s ∧ runOps H { mode := mode } (ops.map stripOp) = some s2 ∧
+      s.root = s2.root ∧ s.hist = s2.hist ∧ s.gcAt = s2.gcAt ∧
+      ∀ k, ctag (sget s.store k) = ctag (sget s2.store k) := by
+  obtain ⟨s, s2, top, h1, h2, htw⟩ := refine_run H mode hrc ops none _ _
+    ⟨inv_init H mode, inv_init H mode, rfl, rfl, rfl, fun _ => rfl⟩ hh
+  exact ⟨s, s2, h1, h2, htw.root, htw.hist, htw.gcAt, htw.tags⟩
+
+-- non-vacuity: the history `lazyOps` above has two blocks with loads; stripped it has none
+example : lazyOps.map stripOp =
+    [.block 0 [.put [1,2] [0xaa], .put [3,4] [0xaa], .put [5,6] [0xbb]], .reset,
+     .block 1 [.del [1,2], .del [3,4]], .block 2 [.put [1,2] [0xaa]]] := rfl
+
+/-! ## 8. state-sync restore through the layers -/
+
+/-- C11.8: `Billet.RestoreHashNode` over MemCachedStore layers with the store persisted between any
+two restorations (`sched`): the layers show exactly what restoring into one store gives, hence
+(with `restore_exact`) count = occurrences for every hash — in particular for a sub-trie restored at
+two paths with a persist in between. -/
+theorem restore_exact_layered (H : Bytes → Bytes) (mode : Mode) (hrc : mode.rc = true) (t : Node) (sched : List Bool) (h : Bytes) :
+    (restoreL H mode {} (positions t) sched).get h = sget (restoreAll H mode [] t) h ∧
+    actC ((restoreL H mode {} (positions t) sched).get h) = occH H t h := by
+  have hr := restoreL_rep H mode (positions t) {} [] sched (fun _ => rfl) h
+  refine ⟨hr, ?_⟩
+  rw [hr]
+  exact (restore_exact H mode hrc t).1 h
+
+-- non-vacuity: the leaf `aa` at two positions, a persist before each restoration: count 2
+set_option maxRecDepth 100000 in
+example : actC ((restoreL toyH .latest {} (positions exT) [true, true, true, true, true, true, true]).get
+    (hash toyH (.leaf [0xaa]))) = 2 := by decide
 
 end NeoModel.C11
